@@ -84,7 +84,7 @@ def sign(t, env):
             if n is not None and n.denominator == 1 and int(n) % 2 == 0:
                 return 1
             return sign(tr[1], env)
-        if k == "cmp":
+        if k in ("cmp", "not"):
             return 1
     a = t.single_atom()
     if a is not None:
@@ -200,6 +200,9 @@ def mono(t, p, env):
             if n < 0 and sign(tr[1], env) == 1:
                 return None if m is None else -m
             return None
+        if k == "not":
+            m = mono(tr[1], p, env)
+            return None if m is None else -m
         if k == "cmp":
             op, a, b = tr[1], tr[2], tr[3]
             ma, mb = mono(a, p, env), mono(b, p, env)
